@@ -102,6 +102,13 @@ def gen_programs(rng, n, consts):
         decorate(rng, p)
         if rng.random() < 0.15:     # empty struct with braces
             p.prelude += '#[typeshare]\npub struct EmptyBraces {}\n'
+        c = rng.random()
+        if c < 0.08:       # generic structs that end up WITHOUT members (seeded C10_c: `object Tag<T>` in Kotlin)
+            p.prelude += '#[typeshare]\npub struct EmptyGeneric<T> {\n    #[serde(skip)]\n    pub marker: std::marker::PhantomData<T>,\n}\n'
+        elif c < 0.14:
+            p.prelude += '#[typeshare]\npub struct EmptyGenericBraces<T, U> {}\n'
+        elif c < 0.18:
+            p.prelude += '#[typeshare]\npub struct UnitGeneric<T>;\n'
         out.append(p)
     return out
 
@@ -234,6 +241,60 @@ def param_separators(lang, text):
     return bad
 
 
+
+_ID = r'(?:`[^`\n]+`|[A-Za-z_][A-Za-z0-9_]*)'
+_KT_MOD = r'(?:(?:public|private|internal|protected|open|abstract|sealed|data|value|inline|enum|annotation|inner|final)\s+)*'
+
+
+def _balanced_angle(rest, open_c, close_c):
+    """rest starts with open_c: index just after the matching close_c, or None"""
+    depth = 0
+    for i, ch in enumerate(rest):
+        if ch == open_c:
+            depth += 1
+        elif ch == close_c:
+            depth -= 1
+            if depth == 0:
+                return i + 1
+    return None
+
+
+def head_grammar(lang, text):
+    """DEFINITE violations of the declaration-head grammar of Kotlin / Scala (no compiler for them is installed; the line-oriented
+    templates of lib/extract.py only say `unreadable`).  Kotlin (grammar: objectDeclaration := modifiers? 'object' simpleIdentifier
+    (':' delegationSpecifiers)? classBody? - NO typeParameters, no constructor; classDeclaration := modifiers? 'class' simpleIdentifier
+    typeParameters? primaryConstructor? (':' ..)? classBody?; typeAlias := 'typealias' simpleIdentifier typeParameters? '=' type).
+    Scala 2 (ObjectDef := id ClassTemplateOpt - no type parameters, no parameters; ClassDef := id [TypeParamClause] ..;
+    TypeDef := id [TypeParamClause] '=' Type).  Comments and string literals are skipped by only looking at lines that START
+    (after indentation, annotations on their own lines excluded) with the declaration keyword."""
+    bad = []
+    if lang not in ('kotlin', 'scala'):
+        return bad
+    op, cl = ('<', '>') if lang == 'kotlin' else ('[', ']')
+    mods = _KT_MOD if lang == 'kotlin' else r'(?:(?:sealed|case|final|abstract|private|implicit)\s+)*'
+    alias_kw = 'typealias' if lang == 'kotlin' else 'type'
+    for no, line in enumerate(text.split('\n'), 1):
+        m = re.match(r'^\s*' + mods + r'(object|class|trait|interface|' + alias_kw + r')\s+(' + _ID + r')(.*)$', line)
+        if not m:
+            continue
+        kw, name, rest = m.group(1), m.group(2), m.group(3)
+        r = rest.lstrip()
+        if kw == 'object':
+            if r.startswith(op) or r.startswith('('):
+                bad.append(f'line {no}: `object {name}` followed by `{r[:12]}`: an object declaration takes neither type parameters nor a constructor')
+            continue
+        if r.startswith(op):
+            end = _balanced_angle(r, op, cl)
+            if end is None:
+                bad.append(f'line {no}: unclosed type-parameter list after `{kw} {name}`')
+                continue
+            if r[1:end - 1].strip() == '':
+                bad.append(f'line {no}: empty type-parameter list after `{kw} {name}`')
+            r = r[end:].lstrip()
+        if kw == alias_kw and not r.startswith('='):
+            bad.append(f'line {no}: `{kw} {name}` is not followed by `=`')
+    return bad
+
 def observe(lang, text):
     """declaring positions + template conformance from the REAL text"""
     o = extract.extract(lang, text)
@@ -267,6 +328,10 @@ def observe(lang, text):
         if ps:
             fails.append('separators')
             why += ps[:3]
+        hg = head_grammar(lang, text)
+        if hg:
+            fails.append('head-grammar')
+            why = hg[:3] + why
     if lang == 'python':
         f, w = python_verdict(text)
         fails += f
